@@ -35,6 +35,15 @@ func c10CoreBody(rc *RunCtx) {
 		DisableCache: tp.Pick(2) == 1, Plain: tp.Pick(3) == 2, Shares: n, Thresh: t,
 		Logical: map[string]logical.Factory{"kv": kv.Factory},
 	}
+	// a third of the runs use an auto-unseal style seal (root key stored wrapped
+	// by a test KMS, no unseal shares; recovery keys instead)
+	autoSeal := tp.Pick(3) == 2
+	sealKind := "shamir"
+	if autoSeal {
+		opts.AutoSealSecret = []byte(fmt.Sprintf("kms-secret-%d", tp.Pick(1000)))
+		sealKind = "auto"
+	}
+	rc.Cfg("seal", sealKind)
 	rc.Cfg("shares", fmt.Sprintf("%d/%d", t, n))
 	rc.Cfg("plain_disk", opts.Plain)
 	disk := NewDisk(s)
@@ -81,7 +90,7 @@ func c10CoreBody(rc *RunCtx) {
 		to := disk.LogLen()
 		for k := from; k <= to; k++ {
 			crashes++
-			sig := map[string]any{"op": op, "level": "core", "seal": "shamir", "write_prefix": k - from, "writes": to - from, "mid_operation": k > from && k < to}
+			sig := map[string]any{"op": op, "level": "core", "seal": sealKind, "write_prefix": k - from, "writes": to - from, "mid_operation": k > from && k < to}
 			fd := disk.ForkAt(k, s)
 			try := func(keys [][]byte, thr int) (*CoreH, error) {
 				x := *h
@@ -356,6 +365,11 @@ func c10CoreBody(rc *RunCtx) {
 			}
 			write(100 + i)
 		case 2: // rekey to new (n', t')
+			if autoSeal {
+				write(500 + i)
+				hist = append(hist, "write")
+				continue
+			}
 			n2 := 1 + tp.Pick(5)
 			t2 := 1
 			if n2 > 1 {
